@@ -7,7 +7,7 @@ for l in open('/verif/seeded/matrix.txt'):
     if m: det[m.group(1)][m.group(2)] = (int(m.group(3)), m.group(5))
 print("| change | what it does (file) | target check | first signature of the target check | also reported by |")
 print("|---|---|---|---|---|")
-for d in sorted(glob.glob('/verif/seeded/C*-m*/')):
+for d in sorted(glob.glob('/verif/seeded/C??-*m?/')):
     name = os.path.basename(d.rstrip('/'))
     meta = json.load(open(d + 'meta.json'))
     pid = meta['property']
